@@ -80,6 +80,7 @@ VSsetfields(int32 vkey, const char *fields)
     DYN_VWRITELIST *wlist;
     vsinstance_t   *w;
     VDATA          *vs;
+    int             building  = FALSE; /* TRUE while the write list is being built */
     int             ret_value = FAIL;
 
     /* check if a NULL field list is passed in, then return with
@@ -129,10 +130,12 @@ VSsetfields(int32 vkey, const char *fields)
                 wlist->isize = wlist->off + ac;
                 wlist->order = wlist->isize + ac;
                 wlist->esize = wlist->order + ac;
-                if ((wlist->name = malloc(sizeof(char *) * (size_t)ac)) == NULL) {
+                if ((wlist->name = calloc((size_t)ac, sizeof(char *))) == NULL) {
                     free(wlist->bptr);
+                    wlist->bptr = NULL;
                     HGOTO_ERROR(DFE_NOSPACE, FAIL);
                 }
+                building = TRUE;
 
                 for (i = 0; i < ac; i++) {
                     found = FALSE;
@@ -141,11 +144,8 @@ VSsetfields(int32 vkey, const char *fields)
                         if (!strcmp(av[i], vs->usym[j].name)) {
                             found = TRUE;
 
-                            if ((wlist->name[wlist->n] = strdup(vs->usym[j].name)) == NULL) {
-                                free(wlist->name);
-                                free(wlist->bptr);
+                            if ((wlist->name[wlist->n] = strdup(vs->usym[j].name)) == NULL)
                                 HGOTO_ERROR(DFE_NOSPACE, FAIL);
-                            }
                             order                  = vs->usym[j].order;
                             wlist->type[wlist->n]  = vs->usym[j].type;
                             wlist->order[wlist->n] = order;
@@ -175,11 +175,8 @@ VSsetfields(int32 vkey, const char *fields)
                             if (!strcmp(av[i], rstab[j].name)) {
                                 found = TRUE;
 
-                                if ((wlist->name[wlist->n] = strdup(rstab[j].name)) == NULL) {
-                                    free(wlist->name);
-                                    free(wlist->bptr);
+                                if ((wlist->name[wlist->n] = strdup(rstab[j].name)) == NULL)
                                     HGOTO_ERROR(DFE_NOSPACE, FAIL);
-                                }
                                 order                  = rstab[j].order;
                                 wlist->type[wlist->n]  = rstab[j].type;
                                 wlist->order[wlist->n] = order;
@@ -211,6 +208,7 @@ VSsetfields(int32 vkey, const char *fields)
 
                 vs->marked   = TRUE; /* mark vdata as being modified */
                 vs->new_h_sz = TRUE; /* mark vdata header size being changed */
+                building     = FALSE;
 
                 HGOTO_DONE(SUCCEED); /* OK */
             }                        /* if wlist->n == 0 */
@@ -247,6 +245,17 @@ VSsetfields(int32 vkey, const char *fields)
     } /* setting read list */
 
 done:
+    if (building) { /* the field list was refused: leave the Vdata with no fields set, as it was */
+        wlist = &(vs->wlist);
+        for (i = 0; i < ac; i++) /* entries not reached yet are NULL */
+            free(wlist->name[i]);
+        free(wlist->name);
+        free(wlist->bptr);
+        wlist->name   = NULL;
+        wlist->bptr   = NULL;
+        wlist->n      = 0;
+        wlist->ivsize = 0;
+    }
     return ret_value;
 } /* VSsetfields */
 
